@@ -332,6 +332,12 @@ def invariants(chk, binp, thorough):
     n, pg = (2400, 16) if thorough else (120, 8)
     res = run_parts(binp, [["c16", "gen", "--seed", chk.seed + 7919 * p, "--n", max(1, n // parts), "--per", pg] for p in range(parts)])
     collect_inv(chk, res, r"gen-summary ", fails, known_seen, "generated_gpos_kern_invariants")
+    # fonts with TrueType outlines (glyf/loca written by fontgen): advances and the origin shift of vertical text
+    # against the font's own hmtx / vmtx / hhea / glyph boxes (floor division for the centred box, zero extents
+    # for empty glyphs); implementation-level predicate, the Gallina model covers outline-free fonts only
+    n, pg = (4800, 8) if thorough else (480, 6)
+    res = run_parts(binp, [["c16", "glyf", "--seed", chk.seed + 104729 * p, "--n", max(1, n // parts), "--per", pg] for p in range(parts)])
+    collect_inv(chk, res, r"glyf-summary ", fails, known_seen, "outline_font_metrics")
     return fails, known_seen
 
 
